@@ -60,19 +60,21 @@ CLAIMED = {
         technique="Lean 4 theorem (mutual induction over schema types) + source-to-Lean schema translator + differential correspondence check",
     ),
     "C12": dict(
-        text="Lean 4 proofs about the model of AIOKafkaConnection (send / frame reader / _handle_frame / close / "
-             "request timeout / cancellation): (1) chunk independence — feeding a then b equals feeding a++b, hence any "
+        text="Lean 4 proofs about the model of AIOKafkaConnection (send with and without an expected reply / frame "
+             "reader / _handle_frame / close / request timeout / cancellation): (1) chunk independence — feeding a then b equals feeding a++b, hence any "
              "fragmentation of the byte stream gives the same outcomes; (2) for every reachable state (any operation "
              "script, any starting counter < 2^31): no waiter is resolved twice; a delivered reply carries the "
              "correlation id assigned to that waiter's request (exact for every kind except the documented "
              "FindCoordinator-v0/0.8.2 quirk, for which a kernel-checked counterexample and a KNOWN-FINDING exist); "
              "deliveries are in request order; once closed nothing is queued and every waiter has an outcome; a "
-             "waiter is resolved xor pending; correlation ids stay below 2^31 and ids fewer than 2^31 sends apart "
-             "differ. Tie: the real connection object (real connect(), in-memory transport, virtual clock) and the "
+             "waiter is resolved xor pending; correlation ids stay below 2^31 and two queued requests carry different "
+             "ids unless 2^31 ids were consumed while the older one waited (requests without a reply consume ids but "
+             "leave no waiter). Tie: the real connection object (real connect(), in-memory transport, virtual clock) and the "
              "model run the same scripts; all waiter outcomes, open/closed and pending sets are compared.",
         design="3/C12",
         note="trusted: Lean kernel (+3 standard axioms); harness/vtloop.py virtual clock and transport; asyncio "
-             "StreamReader / async_timeout abstracted as in-order frame consumption and deadline-triggered done flags.",
+             "StreamReader / async_timeout abstracted as in-order frame consumption and deadline-triggered done flags; "
+             "the idle checker runs against a frozen real clock (ticks are no-ops; idle drops not modelled).",
         technique="Lean 4 invariant proofs over an executable state machine + differential correspondence check on the real connection object",
     ),
     "C15": dict(
